@@ -228,7 +228,7 @@ def stream_fermion(ctx):
     b.flush()
 
     rng = rng_for(ctx.seed, 'c04-fermion')
-    n_ops = budget(ctx.tier, 250, 4000)
+    n_ops = budget(ctx.tier, 400, 4000)
     if ctx.drift:
         n_ops = max(n_ops, 500)
     prev = None
@@ -345,7 +345,7 @@ def stream_helpers(ctx):
     for (p, q, r, s) in tuples:
         kinds = coeff_kinds(rng)
         if ctx.tier == 'quick' and not ctx.drift:
-            kinds = [kinds[1], rng.choice([kinds[0], kinds[2], kinds[3], kinds[4]])]
+            kinds = [kinds[1], kinds[2], rng.choice([kinds[0], kinds[3], kinds[4]])]
         for c in kinds:
             case = {'fn': 'jordan_wigner_two_body', 'pqrs': [p, q, r, s], 'c': to_gq(c)}
             st.case(case)
@@ -413,7 +413,7 @@ def stream_tensors(ctx):
                 'exactly with jordan_wigner(get_fermion_operator(.)); distinct = distinct tensors')
     b = Batch(ctx, st)
     rng = rng_for(ctx.seed, 'c04-iop')
-    n_iop = budget(ctx.tier, 70, 900)
+    n_iop = budget(ctx.tier, 120, 900)
     if ctx.drift:
         n_iop = max(n_iop, 120)
     for k in range(n_iop):
@@ -442,7 +442,7 @@ def stream_tensors(ctx):
     b.flush()
 
     rng = rng_for(ctx.seed, 'c04-dch')
-    for k in range(budget(ctx.tier, 40, 900)):
+    for k in range(budget(ctx.tier, 80, 900)):
         n = rng.randint(1, 5)
         cplx = rng.random() < 0.6
         one = numpy.zeros((n, n), dtype=complex if cplx else float)
@@ -515,7 +515,7 @@ def stream_reverse(ctx):
                 ops.append(of.QubitOperator(((i, P), (j, R)), 1.0))
     ops.append(of.QubitOperator((), 2.0))
     ops.append(of.QubitOperator())
-    for _ in range(budget(ctx.tier, 50, 500)):
+    for _ in range(budget(ctx.tier, 120, 800)):
         ops.append(rand_qubit_op(rng, of, rng.randint(1, 6), 4))
     for Q in ops:
         jQ = enc_op('qubit', Q.terms)
